@@ -95,6 +95,30 @@ theorem sentinel_absent_in_output_old (o : Opts) (hp : o.pretty = true) (sql : S
 theorem generated_surgery_sites_audited :
     ∀ s ∈ SqlglotModel.Generated.C07.surgerySites, s ∈ auditedSurgerySites := by decide +kernel
 
+/-! ### Athena: generator options are applied by the engine the GENERATOR picks, the output is re-read by the engine the
+TOKENIZER picks (shared model: Model/Engine.lean, also used by C01) -/
+
+/-- FINITE TABLE, decided completely: on every enumerated statement shape the model's two predicates give what the real
+    `_tokenize_as_hive` / `_generate_as_hive` give on the shape's sample statement (re-evaluated every run) -/
+theorem athena_engine_model_matches_source :
+    ∀ r ∈ SqlglotModel.Generated.C07.athenaShapes,
+      SqlglotModel.Engine.tokHive r.2.1 = r.2.2.1 ∧ SqlglotModel.Engine.genHive r.2.1 = r.2.2.2 := by decide +kernel
+
+/-- every enumerated `CREATE TABLE … AS <query>` sample (plain, set operation, parenthesised, WITH, over a subquery) is
+    generated and re-tokenized by the same engine — otherwise `identify` / `pretty` output written by Hive (backticks) is
+    re-read by Trino and falls back to a Command -/
+theorem generated_athena_ctas_engines_agree :
+    ∀ r ∈ SqlglotModel.Generated.C07.athenaShapes, r.2.1.first = .create → r.2.1.kind = .table →
+      SqlglotModel.Engine.bodyIsQuery r.2.1.body = true → r.2.2.1 = r.2.2.2 := by decide +kernel
+
+/-- a generator-side guard that accepts only unwrapped queries sends a parenthesised CTAS body to Hive while the tokenizer
+    sends the text to Trino -/
+theorem athena_unwrapped_only_variant_witness :
+    SqlglotModel.Engine.tokHive ⟨.create, .table, false, .paren, false⟩ = false ∧
+    SqlglotModel.Engine.genHiveWith .unwrappedOnly ⟨.create, .table, false, .paren, false⟩ = true ∧
+    SqlglotModel.Engine.genHiveWith .unwrappedOnly ⟨.create, .table, false, .setop, false⟩ = false ∧
+    SqlglotModel.Engine.genHive ⟨.create, .table, false, .paren, false⟩ = false := by decide
+
 /-- `_embed_ignore_nulls` as the source does it (render the call WITHOUT comments, drop its closing parenthesis, append
     the modifier and `)`, then attach the comments): the modifier lands directly before the call's own closing
     parenthesis and the comments follow the call — whatever characters the comment texts contain -/
